@@ -133,6 +133,12 @@ def runCase (c : S) : List String := Id.run do
         match st.snaps[j]? with
         | none => st := { st with out := st.out.push "NOSNAP" }
         | some s => st := { st with out := st.out.push (snapStr s) }
+      | "mutsnap" =>
+        match st.snaps[j]? with
+        | none => st := { st with out := st.out.push "NOSNAP" }
+        | some s =>
+          let s' : Snapshot := ⟨s.vars.set "zz_mut" (.num (F64.ofInt 7)), s.visited.set "zz_mut" 9, s.node⟩
+          st := { st with snaps := st.snaps.set! j s', out := st.out.push (snapStr s') }
       | "restore" =>
         let k := (a.getD 1 (.atom "0")).toNat
         match lookup st.runners j, st.snaps[k]? with
